@@ -104,12 +104,24 @@ func genC02(g *gen) {
 					} else {
 						steps = append(steps, "slice $0 "+a+","+b, "dump $1")
 					}
+					// the sub-array as a value: a materialised copy of the view (the path that trusts the view's
+					// contiguity flag) must hold the same elements
+					if (i+j)%2 == 0 && !emptyRange(a) && !emptyRange(b) {
+						steps = append(steps, "mat $1", "dump $2")
+					}
 					g.emit(steps...)
 				}
 			}
 			// shorter slice lists
-			for _, a := range A {
-				g.emit(fmt.Sprintf("new f32 %d,%d C", d0, d1), "slice $0 "+a, "dump $1")
+			for k, a := range A {
+				if emptyRange(a) {
+					g.emit(fmt.Sprintf("new f32 %d,%d C", d0, d1), "slice $0 "+a, "dump $1")
+					continue
+				}
+				g.emit(fmt.Sprintf("new f32 %d,%d %s", d0, d1, srcs[k%3]), "slice $0 "+a, "dump $1", "mat $1", "dump $2")
+				if d0 > 1 && d1 > 1 {
+					g.emit(fmt.Sprintf("new f32 %d,%d C", d0, d1), "T $0 1,0", "slice $0 "+a, "dump $1", "mat $1", "dump $2")
+				}
 			}
 		}
 	}
@@ -468,6 +480,13 @@ func factorisations(n, maxRank int) [][]int {
 }
 
 // C13: shape algebra agrees with execution; reshape; metadata invariant.
+// emptyRange: a slice argument s:e(:step) with s == e selects nothing; what the library does with the resulting
+// zero-length window (Materialize reads past it) is outside every property and outside the model
+func emptyRange(a string) bool {
+	parts := strings.Split(a, ":")
+	return len(parts) >= 2 && parts[0] == parts[1]
+}
+
 func genC13(g *gen) {
 	maxd := 4
 	n := 3000
